@@ -162,7 +162,7 @@ def run_property(pid, tier='quick', seed=0, only=None):
     bounded = []
     hashes = {}
     backends = {}
-    replay_dir = os.path.join(ROOT, 'replays')
+    replay_dir = os.environ.get('VERIF_REPLAY_DIR') or os.path.join(ROOT, 'replays')
     os.makedirs(replay_dir, exist_ok=True)
 
     for r in results:
@@ -178,7 +178,8 @@ def run_property(pid, tier='quick', seed=0, only=None):
         assumptions.update(r.notes)
         undecided.extend('%s: %s' % (u.name, x) for x in r.undecided)
         errors.extend('%s: %s' % (u.name, x) for x in r.errors)
-        failed_here = 0
+        nviol_before = len(violations)
+        guard_errors = []
         seen_fail = set()
         for o in r.obligations:
             n_obl += 1
@@ -190,7 +191,7 @@ def run_property(pid, tier='quick', seed=0, only=None):
                                         backend=o.backend, time_s=round(o.time, 4)))
             elif o.status == FAILED:
                 if o.kind in ('cover', 'twin'):
-                    errors.append('%s: soundness guard %s failed (vacuity or twin not refuted)' % (u.name, o.label))
+                    guard_errors.append('%s: soundness guard %s failed (vacuity or twin not refuted)' % (u.name, o.label))
                     continue
                 key = (o.label,)
                 wk = None
@@ -217,9 +218,12 @@ def run_property(pid, tier='quick', seed=0, only=None):
                     continue
                 seen_fail.add(dedup)
                 violations.append((u, o, rp, wk))
+        if len(violations) == nviol_before:
+            # a must-fail twin that holds on code which also fails real obligations is a symptom, not an engine fault
+            errors.extend(sorted(set(guard_errors)))
         if r.bounded:
             bounded.append(r.bounded)
-            for f in r.bounded.get('failures', [])[:3]:
+            for f in r.bounded.get('failures', [])[:1]:
                 # a concrete failing input on the real code
                 hit = None
                 for k in known:
@@ -293,8 +297,9 @@ def run_property(pid, tier='quick', seed=0, only=None):
         wall_s=round(wall, 3),
         violations=vcount,
     )
-    os.makedirs(os.path.join(ROOT, 'evidence'), exist_ok=True)
-    with open(os.path.join(ROOT, 'evidence', '%s.json' % pid), 'w') as f:
+    evdir = os.environ.get('VERIF_EVIDENCE_DIR') or os.path.join(ROOT, 'evidence')
+    os.makedirs(evdir, exist_ok=True)
+    with open(os.path.join(evdir, '%s.json' % pid), 'w') as f:
         json.dump(ev, f, indent=1, default=repr)
 
     for l in lines:
